@@ -353,12 +353,45 @@ def controlling_switches(body, bb):
     """Switch blocks on which `bb` is control dependent (approximation: dominating switches from some successor
     of which `bb` cannot be reached).  -> [(switch_bb, subject_expr, names)]"""
     out = []
+    fwd = _forward_reach(body)
     for b in sorted(body.reachable()):
         t = body.term(b)
         if t["k"] != "switch" or b == bb or not body.dominates(b, bb):
             continue
-        if all(bb in body.blocks_reachable_from(x) for x in body.succs(b)):
+        # reachability without loop back edges: inside a loop every block reaches every other through the next iteration,
+        # which says nothing about what decides whether `bb` runs in THIS iteration
+        if all(bb == x or bb in fwd(x) for x in body.succs(b)):
             continue
         info = body.switch_info(b)
         out.append((b, info[0] if info else body.expr(t["discr"]), info[3] if info else None))
     return out
+
+
+def with_closures(F, body):
+    """The body followed by the bodies of the closures defined inside it (a loop body turned into `.map(|x| ..)`)."""
+    return [body] + [F.bodies[p] for p in sorted(F.bodies) if p.startswith(body.path + "::{closure")]
+
+
+def _forward_reach(body):
+    """reach(x) over the CFG with back edges (u -> h where h dominates u) removed; memoised per body."""
+    cache = getattr(body, "_fwd_reach_cache", None)
+    if cache is None:
+        cache = {}
+        body._fwd_reach_cache = cache
+
+    def reach(x):
+        if x in cache:
+            return cache[x]
+        seen = set()
+        work = [x]
+        while work:
+            u = work.pop()
+            for v in body.succs(u):
+                if body.dominates(v, u):
+                    continue        # back edge
+                if v not in seen:
+                    seen.add(v)
+                    work.append(v)
+        cache[x] = seen
+        return seen
+    return reach
